@@ -161,10 +161,18 @@ where
     }
 
     fn may_have(&self, o: &Self::A) -> bool {
+        #[cfg(rustybuzz_verif)]
+        if verif_prefilter_off() {
+            return true;
+        }
         self.head.may_have(&o.head) && self.tail.may_have(&o.tail)
     }
 
     fn may_have_glyph(&self, g: GlyphId) -> bool {
+        #[cfg(rustybuzz_verif)]
+        if verif_prefilter_off() {
+            return true;
+        }
         self.head.may_have_glyph(g) && self.tail.may_have_glyph(g)
     }
 }
@@ -177,6 +185,47 @@ pub type hb_set_digest_t = hb_set_digest_combiner_t<
         hb_set_digest_bits_pattern_t<9>
     >,
 >;
+
+// Verification hooks (guard: --cfg rustybuzz_verif). Nothing below is compiled without the guard.
+#[cfg(rustybuzz_verif)]
+pub static VERIF_PREFILTER_OFF: core::sync::atomic::AtomicBool =
+    core::sync::atomic::AtomicBool::new(false);
+
+#[cfg(rustybuzz_verif)]
+#[inline]
+fn verif_prefilter_off() -> bool {
+    VERIF_PREFILTER_OFF.load(core::sync::atomic::Ordering::Relaxed)
+}
+
+#[cfg(rustybuzz_verif)]
+impl<const shift: u8> hb_set_digest_bits_pattern_t<shift> {
+    pub fn verif_mask(&self) -> u64 {
+        self.mask
+    }
+
+    pub fn verif_from_mask(mask: u64) -> Self {
+        Self { mask }
+    }
+}
+
+#[cfg(rustybuzz_verif)]
+impl<head_t, tail_t> hb_set_digest_combiner_t<head_t, tail_t>
+where
+    head_t: hb_set_digest_ext,
+    tail_t: hb_set_digest_ext,
+{
+    pub fn verif_head(&self) -> &head_t {
+        &self.head
+    }
+
+    pub fn verif_tail(&self) -> &tail_t {
+        &self.tail
+    }
+
+    pub fn verif_from_parts(head: head_t, tail: tail_t) -> Self {
+        Self { head, tail }
+    }
+}
 
 #[rustfmt::skip]
 #[cfg(test)]
